@@ -65,6 +65,9 @@ def run_case(args):
     if variant == 1:
         env["VP_PADDING"] = "x" * 3000
         argv = ["setarch", "x86_64", "-R"] + argv
+    if variant == 3:   # another process context: few file descriptors left (limit 40, 12 more inherited open), small stack limit, other umask/nice
+        argv = ["bash", "-c", "exec 20</dev/null 21</dev/null 22</dev/null 23</dev/null 24</dev/null 25</dev/null 26</dev/null 27</dev/null 28</dev/null 29</dev/null 30</dev/null 31</dev/null; "
+                "ulimit -n 40; ulimit -s 4096; exec \"$0\" \"$@\""] + argv
     st, out, err = core.run_limited(argv, cwd=stage, timeout=120, binary=True, env=env)
     files = {}
     for f in sorted(os.listdir(outdir)):
@@ -82,6 +85,13 @@ def run_case(args):
                             .replace((stage + "/include").encode(), b"@INC").replace(b"./include", b"@INC"))
     shutil.rmtree(outdir, ignore_errors=True)
     return (str(st), h(norm(out)), h(norm(err)), tuple(sorted(files.items()))), norm(err)[:300].decode("utf-8", "replace")
+
+
+LIMITS_REPLAY = ("d=$(mktemp -d) && trap 'rm -rf $d' EXIT && cd $d && for i in $(seq 0 199); do printf '#pragma once\\nextern int many_%d;\\n#define MANY_%d %d\\n' $i $i $i > m$i.h; done\n"
+                 "cp \"$OLDPWD/input.c\" many.c\n$CHIBICC OPTS -o out1 many.c > o1 2> e1; echo $? >> o1\n"
+                 "bash -c 'exec 20</dev/null 21</dev/null 22</dev/null 23</dev/null 24</dev/null 25</dev/null 26</dev/null 27</dev/null 28</dev/null 29</dev/null 30</dev/null 31</dev/null; "
+                 "ulimit -n 40; ulimit -s 4096; exec \"$0\" \"$@\"' $CHIBICC OPTS -o out2 many.c > o2 2> e2; echo $? >> o2\n"
+                 "cmp -s o1 o2 && cmp -s e1 e2 || exit 1; [ -f out1 ] && { cmp -s out1 out2 || exit 1; }; exit 0")
 
 
 def corpus(ctx):
@@ -164,6 +174,35 @@ def corpus(ctx):
                 txt = ("long g(void) { return (long)(%s); }\n" % (fm % a)) if fm in forms else ("long g(void) { %s return 0; }\n" % (fm % a))
                 open(p, "w").write(pre + txt)
                 inputs.append(("gen/form/%s/%s" % (fm.replace("%s", "_"), an), p)); k += 1
+        # every construct that consumes a constant x every width threshold of the value (the self-compiled compiler's own
+        # arithmetic on token values, directive values, sizes and labels must agree with the gcc-built one's)
+        nums = []
+        for v in (0, 1, 255, 256, 65535, 65536, 2147483647, 2147483648, 4294967295, 4294967296, 4294967297, 1 << 40, 3 << 32, 0x7fffffff00000000,
+                  9223372036854775807, 9223372036854775808, 18446744073709551615):
+            for sfx in ("", "L", "U", "UL"):
+                if v >= 1 << 63 and "U" not in sfx:
+                    continue
+                nums.append("%d%s" % (v, sfx))
+                if sfx in ("", "L") and v:
+                    nums.append("(-%d%s)" % (v, sfx))
+        nums += ["0x100000000", "(1L << 40)", "(1L << 32)", "(~0u)", "(~0ul)", "'\\377'", "(-2147483647 - 1)", "(-9223372036854775807L - 1)"]
+        tmpl = ["#if N\nint a = 1;\n#else\nint a = 2;\n#endif\n", "#if 0\n#elif N\nint a = 1;\n#else\nint a = 2;\n#endif\n", "#if (N) > 0\nint a = 1;\n#elif (N) < 0\nint a = 3;\n#else\nint a = 2;\n#endif\n",
+                "#if 1\n#elif N\n#endif\nint a;\n", "#if (N) >> 31 >> 1\nint a = 1;\n#else\nint a = 2;\n#endif\n",
+                "long v = N;\n", "int v = N;\n", "char v = N;\n", "_Bool v = N;\n", "double v = N;\n", "float v = N;\n", "unsigned long v = N;\n", "short v[] = {N, N};\n",
+                "enum { e = N }; long v = e;\n", "int f(long x) { switch (x) { case N: return 1; } return 0; }\n", "int f(int x) { switch (x) { case N: return 1; } return 0; }\n",
+                "long f(long x) { return x + N; }\n", "long f(long x) { return x * N; }\n", "long f(long x) { return x / N; }\n", "long f(long x) { return x % N; }\n",
+                "long f(long x) { return x & N; }\n", "long f(long x) { return x << (N & 63); }\n", "int f(long x) { return x < N; }\n", "int f(int x) { return x == N; }\n",
+                "int f(void) { return N ? 1 : 2; }\n", "int f(void) { return !N; }\n", "int f(int x) { return x && N; }\n", "int f(int x) { return x || N; }\n",
+                "int f(void) { if (N) return 1; return 0; }\n", "int f(void) { int n = 0; while (N) { if (n++) break; } return n; }\n",
+                "char a[(N) % 7 + 8];\n", "struct { long f : (N) % 31 + 32; } s;\n", "long f(void) { return sizeof(char[(N) % 100 + 101]); }\n",
+                "int g(int, ...); int f(void) { return g(1, N); }\n", "long a[] = { [(N) % 5 + 5] = N };\n", "_Alignas(1 << ((N) & 3)) char c;\n",
+                "long f(void) { return (int)N; }\n", "long f(void) { return (unsigned char)N; }\n", "double f(void) { return (double)N; }\n", "long f(void) { return -N; }\n", "long f(void) { return ~N; }\n"]
+        k = 0
+        for ti, t in enumerate(tmpl):
+            for n in (nums if ctx.tier == "thorough" else nums[::2] + nums[-8:]):
+                p = os.path.join(gd, "num_%d.c" % k)
+                open(p, "w").write(t.replace("N", n))
+                inputs.append(("gen/num/t%d/%s" % (ti, n), p)); k += 1
     except Exception as e:   # other checks' generators are optional corpus providers
         ctx.notes.append("generator corpus partly unavailable: %r" % (e,))
     return inputs
@@ -194,14 +233,14 @@ def run(ctx):
         for oi, opts in enumerate(optsets):
             if fam in ("seed", "gen") and oi >= (3 if ctx.tier == "quick" else 99):
                 continue
-            if (name.startswith("gen/op/") or name.startswith("gen/form/")) and oi >= 1:
+            if (name.startswith("gen/op/") or name.startswith("gen/form/") or name.startswith("gen/num/")) and oi >= 1:
                 continue
             extra = ["-I" + os.path.join(ctx.tree, "test")] if fam == "test" else []
             key = (name, " ".join(opts))
             stages = [("S1", s1), ("S2", s2)] + ([("S3", s3)] if fam == "src" else [])
             for sn, sd in stages:
                 jobs.append((key, sn, (sd, path, opts + extra, os.path.join(ctx.work, "o", "%d" % len(jobs)), 0)))
-            if oi < 2 and not (name.startswith("gen/op/") or name.startswith("gen/form/")):   # (c) determinism of S1: second run, ASLR off, bigger environment
+            if oi < 2 and not (name.startswith("gen/op/") or name.startswith("gen/form/") or name.startswith("gen/num/")):   # (c) determinism of S1: second run, ASLR off, bigger environment
                 jobs.append((key, "S1'", (s1, path, opts + extra, os.path.join(ctx.work, "o", "%d" % len(jobs)), 1)))
     # (d) the path the compiler is invoked through must not matter: S1 reached through symlinked directories whose names are
     # 60..1000 characters long (chibicc, include/ linked inside), on inputs that use the built-in headers
@@ -229,6 +268,21 @@ def run(ctx):
                 jobs.append((key, "S1", (s1, path, opts + extra, os.path.join(ctx.work, "o", "%d" % len(jobs)), 0)))
             for L, full in longdirs:
                 jobs.append((key, "S1@path%d" % L, (full, path, opts + extra, os.path.join(ctx.work, "o", "%d" % len(jobs)), 2)))
+    # (e) the process context must not matter: S1 with 12 extra inherited descriptors, RLIMIT_NOFILE 40 and a 4 MB stack on inputs that open
+    # many files one after the other (200 sibling headers; the tree's own sources with their header chains)
+    hd = ctx.mkdir("manyhdr")
+    for i in range(200):
+        open(os.path.join(hd, "m%d.h" % i), "w").write("#pragma once\nextern int many_%d;\n#define MANY_%d %d\n" % (i, i, i))
+    mp = os.path.join(hd, "many.c")
+    open(mp, "w").write("".join('#include "m%d.h"\n' % i for i in range(200)) + "int sum = MANY_0 + MANY_199;\n")
+    for name, path in [("gen/many-headers", mp)] + [(n, p) for n, p in inputs if n in ("src/main.c", "src/parse.c", "test/stdhdr.c", "gen/builtin-headers")] + [("gen/builtin-headers", hp)]:
+        extra = ["-I" + os.path.join(ctx.tree, "test")] if name.startswith("test/") else []
+        for opts in (["-S"], ["-E"], ["-c"]):
+            key = (name, " ".join(opts))
+            if not any(j[0] == key and j[1] == "S1" for j in jobs):
+                jobs.append((key, "S1", (s1, path, opts + extra, os.path.join(ctx.work, "o", "%d" % len(jobs)), 0)))
+            if not any(j[0] == key and j[1] == "S1#limits" for j in jobs):
+                jobs.append((key, "S1#limits", (s1, path, opts + extra, os.path.join(ctx.work, "o", "%d" % len(jobs)), 3)))
     have_setarch = core.sh(["setarch", "x86_64", "-R", "true"])[0] == 0
     if not have_setarch:
         jobs = [j for j in jobs if j[1] != "S1'"]
@@ -243,14 +297,14 @@ def run(ctx):
         name, opts = key
         base = d["S1"][0]
         outcomes.add(base[0] + ("/out" if base[3] else ""))
-        for sn in ["S2", "S3", "S1'"] + sorted(x for x in d if x.startswith("S1@")):
+        for sn in ["S2", "S3", "S1'", "S1#limits"] + sorted(x for x in d if x.startswith("S1@")):
             if sn not in d:
                 continue
             ncmp += 1
             if d[sn][0] != base:
                 what = [w for w, x, y in zip(("status", "stdout", "stderr", "files"), d[sn][0], base) if x != y]
                 fam = name.split("/")[0]
-                cls = {"S2": "stage1-vs-stage2", "S3": "stage1-vs-stage3", "S1'": "nondeterministic"}.get(sn, "depends-on-invocation-path")
+                cls = {"S2": "stage1-vs-stage2", "S3": "stage1-vs-stage3", "S1'": "nondeterministic", "S1#limits": "depends-on-process-limits"}.get(sn, "depends-on-invocation-path")
                 a = d[sn][2]
                 src = open(a[1], errors="replace").read()
                 sig = "C12|%s|%s|%s|%s" % (cls, name if fam in ("src", "test") else fam, opts.split()[0], "+".join(what))
@@ -262,8 +316,10 @@ def run(ctx):
                       "diff -r $d/o1 $d/o2 > /dev/null && exit 0; exit 1").replace("OPTS", " ".join(a[2]))
                 if sn == "S1'":
                     rp = "exit 1"
+                if sn == "S1#limits":
+                    rp = None
                 ctx.violation(sig, "%s %s: %s differs between S1 and %s (%s | %s)" % (name, opts, "+".join(what), sn, d["S1"][1][:80], d[sn][1][:80]),
-                              files={"input.c": src}, replay=rp if sn == "S2" else None)
+                              files={"input.c": src}, replay=rp if sn == "S2" else LIMITS_REPLAY.replace("OPTS", " ".join(o for o in a[2] if not o.startswith("-I"))) if sn == "S1#limits" and name == "gen/many-headers" else None)
     ctx.cover(evaluations=ncmp, distinct_nontrivial=len(table), inputs=len(inputs), option_sets=len(optsets), outcome_classes=sorted(outcomes),
               rule="one case = (input file, option set); judged by byte equality of status/stdout/stderr/output files between S1 and S2 "
                    "(and S3 for the tree's sources = fixpoint) and between two S1 runs with ASLR on/off and different environment size")
